@@ -39,6 +39,9 @@ CHECKS = {
  "C17": ("exploration", "exhaustive enumeration of the configuration lattice (name sources x environment layers x option orders) through the real cli/loader entry points against a precedence reference",
          "The full product of explicit name (unset / valid / 2 invalid) x COMPOSE_PROJECT_NAME source (absent, WithEnv, OS, .env; valid or invalid) x `name:` placement over two files and a second document x name text (literal, ${VAR} set/unset, mixed case, normalising to empty) x directory base name (5 shapes) is loaded through cli.NewProjectOptions + LoadProject (2,800 loads); a variable is defined in every non-empty subset of {WithEnv, OS, .env #1, .env #2} under all 8 documented option orders, observed directly and through a ${V} reference written in .env #2. Oracle: the precedence chains of the statement, name shape, visibility as COMPOSE_PROJECT_NAME, rejection of invalid explicit/environment names.",
          "Trusted: the reference chains in props/c17.go (Appendix A.4); cases the statement leaves open are not asserted.", "§4 C17, App. A.4", "E3 E4 E5"),
+ "C10": ("exploration", "exhaustive enumeration of minimal rule violations x delivery routes and of all small cyclic dependency digraphs, with an independent invariant checker on every accepted project",
+         "A valid family (a 3-service model with one resource of each kind, all corpus documents, the positive boundary of every agreement rule) must load and satisfy an independent checker written over the typed project. For each of 34 rule violations (7 kinds of dangling reference incl. build secrets, service: namespaces, links, volumes_from; every exclusive pair; external volume with each creation parameter; secret/config with none, each pair and all sources; every disagreeing pair; container_name with scale or replicas > 1) the violating fragment is delivered through the main file, an override file, an included file and (service-level rules) an extended base: each must yield an error and no project. Every labelled depends_on digraph on <=3 services and every 7th on 4 (all on 4 in the thorough tier) must be accepted iff it is acyclic.",
+         "Trusted: props.c10consistent as the meaning of 'referentially consistent'.", "§4 C10", "E3 E5"),
 }
 
 NOT_YET = {}
